@@ -28,6 +28,10 @@ TEXT = {
             "proof (partial): tokio scheduling not modelled; the listen()/TCP path is exercised under C10"),
     "C09": ("proof", "5 C09", "Theorems C09_read_cut (stream ending at ANY offset q inside the next frame: exactly the complete requests were handled, exactly their answers written, loop ended), C09_write_cut (write side failing at any point: calls = reqs.take k, answers to the first k-1 fully written, nothing beyond a prefix of the k-th), C09_write_prefix, C09_no_panic. Partial: promptness (time) is exercised under paused virtual time, not proved. Tie: fault enumeration over EVERY read cut offset (close / dribble+close / reset) and EVERY write failure offset (error and Ok(0)) of each corpus stream.",
             "proof (partial): termination in real time and wake-ups are runtime behaviour"),
+    "C11": ("proof", "5 C11", "Theorems over the client's labelled transition system (labels = the lock-granularity atomic steps of send_message / handle / process_decoded_msg): C11_safety for EVERY run (any interleaving, any peer): a future only ever holds a message the peer emitted whose id is the id of its own request; C11_delivery and C11_once for polite runs (fresh ids, peer answers started requests at most once): every emitted answer ends in the future of its own request, in at most one. Proved by a 7- and a 15-clause inductive invariant. Partial: tokio's scheduler, oneshot channel and mutex are assumed. Tie: trace conformance - the harness drives the real client on scripted streams (verif_attach_stream + trace points), the driver replays every observed event trace through Client.step and rejects a trace that is not a run or whose predicted future values differ; the properties are also evaluated directly on the observed future values.",
+            "proof (partial): tokio scheduling, oneshot delivery, Mutex serialisation are assumptions (DESIGN.md section 3); multi-threaded TCP runs are supporting evidence only"),
+    "C12": ("proof", "5 C12", "Theorems C12_stopped (once the reader has stopped, for whatever reason, the table is closed and NO future is pending), C12_send_after_stop (a later send is refused under the lock), C12_superseded, C12_pending_means_waiting (pending implies the reader runs and the waiter is still registered or being delivered to) - for every run of the transition system. Partial: that the oneshot actually wakes the awaiting task is runtime behaviour; hangs are detected under paused virtual time. Tie: as C11, with the answer stream cut at EVERY byte offset (close / reset / undecodable continuation), corrupted, unmatched, duplicated answers at every position, superseded waiters, sends after the stop.",
+            "proof (partial): wake-ups and time are runtime behaviour"),
     "C14": ("proof", "5 C14", "Refinement theorem C14_refines: after any history of constructions, document loads and additions the ordered-map model represents the list of supplied definitions (lookup = last supplied for exactly that key; keys strictly sorted, nothing shadowed); corollaries C14_get, C14_no_shadow, C14_by_name_live, C14_by_name_iff, C14_app_declared. Tie: generated histories with colliding codes, names, vendor twins and all must spellings, documents rendered to XML for the real parser; the whole key/name universe is dumped after every step; by-name compared by membership.",
             "serde-xml-rs tokenisation is inside the tie, not the proof"),
     "C15": ("proof", "5 C15", "Theorems C15_names / C15_unknown_name (exactly sixteen spellings are types), C15_lookup_unknown_iff, C15_reject (no entry for the exact pair, or unrecognised type => decoding fails, whatever twins exist), C15_variant (what is returned carries the variant the exact entry declares). Tie: exhaustive table type spelling x entry scope x wire vendor x twins; every definition of both shipped dictionaries read independently by tools/xmlscan.py.",
